@@ -23,6 +23,7 @@ type CaseSig struct {
 	Reply  bool       `json:"reply"` // render a status line instead (no signature expected)
 	Base   []SigHdr   `json:"base"`
 	Vars   [][]SigHdr `json:"vars"`
+	Pre    B          `json:"pre"`     // bytes before the variants in the buffer (they are parsed at offset len(pre))
 	Sched  []int      `json:"sched"`   // chunk schedule for the variants
 	HdrCap int        `json:"hdr_cap"` // >= N: all fit; smaller: truncated indication allowed
 }
@@ -81,11 +82,18 @@ func refHdrSig(method []byte, hs []SigHdr) []sipsp.HdrSigId {
 var sigStringRE = regexp.MustCompile(`^[0-9a-f]{1,9}I[0-9a-f]{6}F[0-9a-f]{4}V[0-9a-f]{4}$`)
 
 func parseForSig(buf []byte, sched []int, hdrCap int) (*sipsp.PSIPMsg, int, sipsp.ErrorHdr) {
+	return parseForSigAt(nil, buf, sched, hdrCap)
+}
+
+// parseForSigAt parses msg placed behind pre in one buffer, starting at offset len(pre).
+func parseForSigAt(pre, msg []byte, sched []int, hdrCap int) (*sipsp.PSIPMsg, int, sipsp.ErrorHdr) {
 	st := NewStepper(Cfg{Kind: KMsg, HdrCap: hdrCap, CtCap: -1, PCap: -1})
-	s := normSchedule(sched, len(buf))
-	o := 0
+	buf := append(append([]byte{}, pre...), msg...)
+	s := normSchedule(sched, len(msg))
+	o := len(pre)
 	var e sipsp.ErrorHdr
 	for j, c := range s {
+		c += len(pre)
 		o, e = st.Step(buf[:c:c], o, j == len(s)-1)
 		if e != sipsp.ErrHdrMoreBytes {
 			break
@@ -139,14 +147,14 @@ func evalSig(c CaseSig) Result {
 		if c.HdrCap < 0 && len(v) <= 10 {
 			capN = -1
 		}
-		m, o, e := parseForSig(buf, c.Sched, capN)
+		m, o, e := parseForSigAt(c.Pre, buf, c.Sched, capN)
 		if e != 0 {
-			return viol("variant %d does not parse: (%d, %v)\nmsg=%s", vi, o, e, B(buf))
+			return viol("variant %d (at offset %d) does not parse: (%d, %v)\nmsg=%s", vi, len(c.Pre), o, e, B(buf))
 		}
 		sig, se := sipsp.GetMsgSig(m)
 		if se != 0 || sig != sig0 {
-			return viol("variant %d: GetMsgSig = (%s, %v); base (%s, no error): the signature changed although only non-fingerprinted parts differ\nbase=%s\nvariant=%s",
-				vi, sig.String(), se, sig0.String(), B(base), B(buf)).with(true, classes...)
+			return viol("variant %d (parsed at offset %d): GetMsgSig = (%s, %v); base (%s, no error): the signature changed although only non-fingerprinted parts differ\nbase=%s\nvariant=%s",
+				vi, len(c.Pre), sig.String(), se, sig0.String(), B(base), B(buf)).with(true, classes...)
 		}
 		// a header array too small for the message: same signature or an explicit truncated indication
 		effCap := c.HdrCap
@@ -154,7 +162,7 @@ func evalSig(c CaseSig) Result {
 			effCap = 10 // built-in array
 		}
 		if effCap < len(v) {
-			mt, _, et := parseForSig(buf, c.Sched, c.HdrCap)
+			mt, _, et := parseForSigAt(c.Pre, buf, c.Sched, c.HdrCap)
 			if et != 0 {
 				return viol("variant %d with header capacity %d does not parse: %v", vi, effCap, et)
 			}
@@ -347,6 +355,12 @@ func genCaseSig(t *rapid.T) CaseSig {
 		c.Sched = []int{rapid.IntRange(1, 40).Draw(t, "c1"), rapid.IntRange(41, 120).Draw(t, "c2"), rapid.IntRange(121, 400).Draw(t, "c3")}
 	}
 	c.HdrCap = pick(t, "hcap", 80, 80, 40, -1, 0, 1, 2, 3, 5, 8)
+	switch weighted(t, "pre_k", 3, 2, 2) {
+	case 1: // behind an earlier message of the same stream
+		c.Pre = B("OPTIONS sip:a@b SIP/2.0\r\nCall-ID: 1.2.3.4-ff@x_y\r\nVia: SIP/2.0/UDP h;branch=z9hG4bK-a.b\r\nl: 0\r\n\r\n")
+	case 2:
+		c.Pre = genFrom(t, "pre", "\r\n ab:;@-._0123456789", 1, 200)
+	}
 	return c
 }
 
